@@ -4,7 +4,7 @@ Timeout.tla (TLC, explicit discrete time): ReturnsByDeadline, FinishedInTime, Ma
 schedule of <= 4 non-matching datagrams at ticks 1..7 plus an optional matching reply at any tick (792 schedules);
 DEV_RearmTimeoutOnSkip reproduces the pinned sync client (timer restarted by every skipped datagram) and TLC returns
 the counterexample.  The schedules of the shape the property names - strays spaced closer than the timeout, reply before
-/ after the deadline / never - are replayed IN REAL TIME (tick 125 ms, timeout 4 ticks = 0.5 s) through the real sync
+/ after the deadline / never - are replayed IN REAL TIME (tick 125 ms, timeout 4 ticks = 0.5 s; a subset again with tick 350 ms, timeout 1.4 s) through the real sync
 and async SnmpSession.get() over v1 / v2c / v3 against a timed agent; TraceTimeout.tla judges outcome and elapsed time
 against the model with 250 ms slack; a failing case is re-run and reported only if it fails three times in a row."""
 import json, threading, time, socket, asyncio, select
@@ -13,6 +13,7 @@ from vlib.report import Check
 from vlib.env import ToolError, SEED
 
 TICK = 0.125
+SLOW_TICK = 0.35
 T = 4
 SLACK_MS = 250
 EARLY_MS = 60
@@ -27,9 +28,9 @@ def mc_timeout(dev=False, export=False):
 class TimedAgent(threading.Thread):
     """answers the first request it sees according to a schedule of (offset_ticks, kind)"""
 
-    def __init__(self, cfg, sched):
+    def __init__(self, cfg, sched, tick=TICK):
         super().__init__(daemon=True)
-        self.cfg, self.sched = cfg, sorted(sched)
+        self.cfg, self.sched, self.tick = cfg, sorted(sched), tick
         self.sock = socket.socket(socket.AF_INET, socket.SOCK_DGRAM)
         self.sock.bind(("127.0.0.1", 0))
         self.port = self.sock.getsockname()[1]
@@ -45,7 +46,7 @@ class TimedAgent(threading.Thread):
         a = ag.Agent(engine=self.cfg.engine or None) if self.cfg.engine else ag.Agent()
         vbs = [(bytes(n), ("int", 1)) for n in req.names]
         for off, kind in self.sched:
-            dt = self.t0 + off * TICK - time.monotonic()
+            dt = self.t0 + off * self.tick - time.monotonic()
             if dt > 0:
                 time.sleep(dt)
             d = a.reply(self.cfg, req, vbs) if kind == "match" else a.reply(self.cfg, req, vbs, reqid=(req.reqid + 7) & 0x7FFFFFFF)
@@ -55,13 +56,13 @@ class TimedAgent(threading.Thread):
                 return
 
 
-def run_case(client, cfg, strays, match):
+def run_case(client, cfg, strays, match, tick=TICK):
     from gufo.snmp import SnmpVersion
     sched = [(s, "stray") for s in strays] + ([(match, "match")] if match else [])
-    agent = TimedAgent(cfg, sched)
+    agent = TimedAgent(cfg, sched, tick)
     agent.start()
     ver = {"v1": SnmpVersion.v1, "v2c": SnmpVersion.v2c, "v3": SnmpVersion.v3}[cfg.ver]
-    kw = dict(port=agent.port, community=cfg.community, version=ver, timeout=T * TICK)
+    kw = dict(port=agent.port, community=cfg.community, version=ver, timeout=T * tick)
     if cfg.ver == "v3":
         kw.update(engine_id=cfg.engine, user=apidrv.user_of(cfg))
     result = "?"
@@ -167,8 +168,8 @@ def run_pair(client, cfg, stray_at, second_reply_at):
     return out
 
 
-def event(client, cfgname, strays, match, result, el):
-    return dict(ev="Timed", client=client, ver=cfgname, T=T, tick_ms=int(TICK * 1000), strays=list(strays), match=match, result=result, elapsed_ms=el,
+def event(client, cfgname, strays, match, result, el, tick=TICK):
+    return dict(ev="Timed", client=client, ver=cfgname, T=T, tick_ms=int(tick * 1000), strays=list(strays), match=match, result=result, elapsed_ms=el,
                 slack_ms=SLACK_MS, early_ms=EARLY_MS)
 
 
@@ -200,17 +201,25 @@ def run(tier):
             for ki, k in enumerate(chosen):
                 if not thorough and cn != "v2c" and (ki + ci + SEED) % 3:
                     continue
-                cases.append((client, cn, k))
+                cases.append((client, cn, k, TICK))
+    # the same schedules on a second time scale (tick 350 ms: timeout 1.4 s, i.e. whole seconds plus a fraction): unit / rounding slips in the
+    # remaining-time arithmetic are invisible while everything stays below one second
+    slow = [((1,), 3), ((1, 2), 3), ((), 3), ((1,), 0), ((1, 3), 0), ((1,), 6), ((), 0), ((2,), 3)]
+    for cn in (["v2c"] if not thorough else ["v2c", "v1", "v3-md5"]):
+        for client in ("sync", "async"):
+            for k in slow:
+                if k in sch:
+                    cases.append((client, cn, k, SLOW_TICK))
     results = {}
     lock = threading.Lock()
 
     def worker(items):
         for c in items:
-            client, cn, (strays, match) = c
-            r = run_case(client, std[cn], strays, match)
+            client, cn, (strays, match), tick = c
+            r = run_case(client, std[cn], strays, match, tick)
             with lock:
                 results[c] = r
-    nthreads = 12
+    nthreads = 16
     threads = [threading.Thread(target=worker, args=(cases[i::nthreads],)) for i in range(nthreads)]
     for t in threads:
         t.start()
@@ -233,9 +242,9 @@ def run(tier):
         t.join()
     rec = trace.Recorder("c18")
     for c in cases:
-        client, cn, (strays, match) = c
-        rec.emit(event(client, cn, strays, match, *results[c]))
-        chk.case((client, cn, strays, match), nontrivial=len(strays) > 0)
+        client, cn, (strays, match), tick = c
+        rec.emit(event(client, cn, strays, match, *results[c], tick=tick))
+        chk.case((client, cn, strays, match, tick), nontrivial=len(strays) > 0)
     pair_index = {}
     for p in pairs:
         client, cn, sa, ra = p
@@ -271,13 +280,13 @@ def run(tier):
                               (client, cn, sa, ra, evs[0]["result"], evs[0]["elapsed_ms"]), dict(client=client, cfg=cn, pair=[sa, ra], runs=evs))
             continue
         c = cases[f - 1]
-        client, cn, (strays, match) = c
+        client, cn, (strays, match), tick = c
         evs = [rec.events[f - 1]]
         confirmed = True
         for _ in range(2):
-            r = run_case(client, std[cn], strays, match)
+            r = run_case(client, std[cn], strays, match, tick)
             rec2 = trace.Recorder("c18-confirm")
-            e2 = event(client, cn, strays, match, *r)
+            e2 = event(client, cn, strays, match, *r, tick=tick)
             rec2.emit(e2)
             v2 = trace.validate("TraceTimeout.tla", "TraceTimeout.cfg", rec2.close())
             evs.append(e2)
@@ -286,9 +295,9 @@ def run(tier):
                 break
         if confirmed:
             late = "late-match" if match >= T else ("match" if match else "none")
-            sig = dict(client=client, nstrays=len(strays) if len(strays) < 2 else "2+", reply=late, result=evs[0]["result"])
-            chk.violation(sig, "%s %s get(), timeout %.3f s, strays at %s ticks, reply at %s: %s after %d ms (three runs: %s)" % (client, cn, T * TICK, list(strays), match or "never",
-                          evs[0]["result"], evs[0]["elapsed_ms"], [x["elapsed_ms"] for x in evs]), dict(client=client, cfg=cn, strays=list(strays), match=match, runs=evs))
+            sig = dict(client=client, nstrays=len(strays) if len(strays) < 2 else "2+", reply=late, result=evs[0]["result"], timeout_over_1s=T * tick > 1.0)
+            chk.violation(sig, "%s %s get(), timeout %.3f s, strays at %s ticks, reply at %s: %s after %d ms (three runs: %s)" % (client, cn, T * tick, list(strays), match or "never",
+                          evs[0]["result"], evs[0]["elapsed_ms"], [x["elapsed_ms"] for x in evs]), dict(client=client, cfg=cn, strays=list(strays), match=match, tick=tick, runs=evs))
     chk.sample(dict(kind="timed-run", event=rec.events[5]))
     chk.assumptions += ["wall-clock measurement with %d ms slack; a regression smaller than the slack is not detected" % SLACK_MS,
                         "schedules replayed: strays spaced 2 ticks apart (the model explores all 792 schedules)"]
@@ -314,9 +323,9 @@ def replay(path):
             return 1
         return 0
     for _ in range(3):
-        res = run_case(r["client"], std[r["cfg"]], tuple(r["strays"]), r["match"])
+        res = run_case(r["client"], std[r["cfg"]], tuple(r["strays"]), r["match"], r.get("tick", TICK))
         rec = trace.Recorder("c18-replay")
-        rec.emit(event(r["client"], r["cfg"], r["strays"], r["match"], *res))
+        rec.emit(event(r["client"], r["cfg"], r["strays"], r["match"], *res, tick=r.get("tick", TICK)))
         v = trace.validate("TraceTimeout.tla", "TraceTimeout.cfg", rec.close())
         print(res, "rejected" if v["fails"] else "accepted")
         bad += 1 if v["fails"] else 0
